@@ -10,7 +10,7 @@ META = {
     "engine": "ValueLit",
     "technique": "TLA+ reference parsers for JSON (RFC 8259) and for the ECMAScript literal subset (validity AND denoted abstract value, numbers through an exact decimal normal form) + Abs(descriptor) = the data encoding/json semantics assign to a Go value (tags, omitempty, '-', embedded structs, sorted map keys, []byte as base64, nil -> null, time.Time) + a branch-by-branch transcription of showInJS/showInJSON, model-checked by TLC over a bounded space of value descriptors; the same descriptors and seeded random ones are built by reflection, rendered by real templates in four JS/JSON contexts, and every rendered literal is parsed and judged by the TLC Trace spec",
     "level": "model_checking",
-    "level_text": "TLC validates the two reference parsers (a corpus of 122 texts with known status, 38 equal/different denotation pairs, and Parse(Print(v)) = v for two independent reference printers on every abstract value of the space) and checks, for every value descriptor of depth <= 2 (quick) / 3 (thorough) and fan-out <= 2 over a 45-leaf menu (nil, booleans, boundary ints of 8 Go types, 1.5, 1e21, 5e-324, max floats, float32, NaN, +-Inf, -0, strings with quotes/</script>/U+2028/non-BMP/NUL, 7 times, pointers, []byte) and a menu of Go containers ([]any, [N]any, typed slices/arrays, map[string|int|bool]any, 6 struct types with json tags/omitempty/'-'/embedded fields), that the transcription of showInJS/showInJSON renders one valid literal denoting Abs(descriptor), except for five named causes found in the tree. The same descriptors plus seeded random ones are built by reflection as real Go values, shown through Template.Run in <script>, .js, .json and <script type=application/ld+json>, and TLC parses each real output with the reference parser and compares the denoted value with Abs(descriptor).",
+    "level_text": "TLC validates the two reference parsers (a corpus of 130 texts with known status, 44 equal/different denotation pairs, and Parse(Print(v)) = v for two independent reference printers on every abstract value of the space) and checks, for every value descriptor of depth <= 2 (quick) / 3 (thorough) and fan-out <= 2 over a 49-leaf menu (nil, booleans, boundary ints of 8 Go types, 1.5, 1e21, 5e-324, max floats, float32, NaN, +-Inf, -0, strings with quotes/</script>/U+2028/non-BMP/NUL, 11 times in the zones UTC, +00:00, +00:01, +05:30, +14:00, -00:30, -03:30, -09:30, -12:00, pointers, []byte) and a menu of Go containers ([]any, [N]any, typed slices/arrays, map[string|int|bool]any, 6 struct types with json tags/omitempty/'-'/embedded fields), that the transcription of showInJS/showInJSON renders one valid literal denoting Abs(descriptor), except for five named causes found in the tree. The same descriptors plus seeded random ones are built by reflection as real Go values, shown through Template.Run in <script>, .js, .json and <script type=application/ld+json>, and TLC parses each real output with the reference parser and compares the denoted value with Abs(descriptor).",
     "level_note": "Trusted: TLC, the Json community module, the Go driver (builds the value by reflection from the descriptor, cross-checks struct field names/tags against the descriptor, renders, strips the fixed text around the slot, logs - no parsing or expected value in Go). Numbers are compared as exact decimals (digits + exponent), not as IEEE doubles: a renderer printing non-shortest digits of the same float64 would be flagged and is then settled by the oracle guard (encoding/json, consulted only for records the TLA+ judge has failed). The JS reference covers literals only (null, booleans, numbers, NaN/Infinity, strings, arrays, objects, new Date(ISO string | integer ms)); any other expression is 'undef' (skipped, counted). Objects are compared as member sets; key order is demanded only for maps in JavaScript context. JavaScript context accepts both readings of a nil []byte (null or \"\") and of embedded structs (promoted or nested). Not covered: values of types implementing JSStringer/JSONStringer/json.Marshaler/error, Stringer map keys, named byte-slice types, cyclic values, strings that are not valid UTF-8 (reference undefined), map[bool] in JSON (encoding/json has no data for it).",
     "design_ref": "7/C08",
 }
@@ -19,7 +19,7 @@ META = {
 PROPOSED_KNOWN = []   # four of the five deviations found by this check were fixed in /repo; embedded-struct promotion stays a known finding (known-findings.json)
 
 FAMS = ["valuelit"]
-MC_INVS = ["PrintParse", "ModelMeetsRefExceptAsFound", "FixRemovesNonFinite", "ModelAlwaysParses"]
+MC_INVS = ["PrintParse", "ModelMeetsRefExceptAsFound", "FixRemovesNonFinite", "FixedTreeOnlyEmbedded", "ModelAlwaysParses"]
 PAR = max(2, min(8, rig.NCPU // 2))
 # the oracle guard (encoding/json decodes the rendered text to the data it produces itself) can overrule the judge only
 # on questions of DATA; it cannot see key order, and it has nothing to say about what is not JSON
@@ -198,8 +198,8 @@ def run(ctx, replay_case=None):
     ctx.cov["ref_undefined"] = tally.get("skip_ref_undefined", 0)
     ctx.cov["out_undefined"] = tally.get("skip_out_undefined", 0)
     ctx.cov["not_accepted_statically"] = tally.get("skip_not_accepted", 0)
-    ctx.cov["model_output_mismatch"] = {"transcription_as_found": diag["drift_asfound"],
-                                        "transcription_with_nonfinite_fix": diag["drift_fixed"]}
+    ctx.cov["model_output_mismatch"] = {"transcription_of_55cee7b_as_found": diag["drift_asfound"],
+                                        "transcription_after_the_four_fixes": diag["drift_fixed"]}
     both = min(diag["drift_asfound"], diag["drift_fixed"])
     if both:
         ctx.cov["model_drift"] = ("real output differs from BOTH transcriptions of showInJS/showInJSON on at least %d of %d records "
